@@ -38,8 +38,11 @@ cls(A + '.convert:AbbreviationNode',
 cls('emmet.config:Config',
     fields={'type': 'any', 'syntax': 'any', 'variables': 'map', 'snippets': 'map', 'options': 'map',
             'user_config': 'map', 'context': 'any', 'cache': 'any'})
-fn('emmet.config:Config.get', trusted=True, props=['C01', 'C20'],
-   params={'self': 'Config', 'key': 'str'}, returns='any', requires=[], ensures=[], modifies=[],
+fn('emmet.config:Config.get', trusted=True, props=['C01', 'C20', 'C08'],
+   params={'self': 'Config', 'key': 'str'}, returns='any', requires=[],
+   # for a key that is not an attribute of Config ('text', 'maxRepeat', ...) the value comes from user_config
+   ensures=["implies(key == 'text', same(result, (at(self.user_config, 'text') if has(self.user_config, 'text') else None)))"],
+   modifies=[],
    note='uses dir()/__getattribute__ reflection: opaque read of a configuration attribute')
 fn(M + '.implicit_tag:lowercase', inline=True, pure=True, props=['C01'])
 fn('emmet.output_stream:is_inline', inline=True, pure=True, props=['C01'])
@@ -140,3 +143,38 @@ fn(M + '.snippets:resolve_snippets.<locals>.resolve', props=['C14'],
    loops={0: {'anchor': 'for top_node in snippet_abbr.children',
               'invariant': ['distinct_ids(stack)', 'len(stack) == old(len(stack))',
                             'forall(0, len(stack), lambda i: same(stack[i], old(stack[i])))']}})
+
+# ---------------------------------------------------------------------------------------
+# markup.parse: the caller's wrap text is removed during resolution and restored on EVERY exit (C08)
+# ---------------------------------------------------------------------------------------
+cls('builtins:Exception', alias='PyException', fields={})
+UC_SAME = ('forall_keys(lambda k: keyis(k, "text") or (has(config.user_config, k) == old(has(config.user_config, k)) and '
+           '                                         same(at(config.user_config, k), old(at(config.user_config, k)))))')
+UNTOUCHED = ['config.user_config is old(config.user_config)',
+             'forall_keys(lambda k: has(config.user_config, k) == old(has(config.user_config, k)) and '
+             '                       same(at(config.user_config, k), old(at(config.user_config, k))))']
+fn(M + '.snippets:resolve_snippets', props=['C08'], trusted=True,
+   params={'abbr': 'any', 'config': 'Config'}, returns='any',
+   requires=[], ensures=UNTOUCHED, ensures_on_raise=UNTOUCHED, raises=['PyException'], modifies=['*'],
+   note='may raise a parse error from a user snippet; assumed not to touch the caller\'s user_config')
+fn(M + '.utils:walk', props=['C08'], trusted=True,
+   params={'node': 'any', 'fn': 'any', 'state': 'Config'}, returns='none',
+   requires=[], ensures=['state.user_config is old(state.user_config)',
+                         'forall_keys(lambda k: has(state.user_config, k) == old(has(state.user_config, k)) and '
+                         '                       same(at(state.user_config, k), old(at(state.user_config, k))))'],
+   ensures_on_raise=['state.user_config is old(state.user_config)',
+                     'forall_keys(lambda k: has(state.user_config, k) == old(has(state.user_config, k)) and '
+                     '                       same(at(state.user_config, k), old(at(state.user_config, k))))'],
+   raises=['PyException'], modifies=['*'],
+   note='applies the node transforms; may raise; assumed not to touch the caller\'s user_config')
+
+RESTORED = ["has(config.user_config, 'text')",
+            # the value found on entry (None when the key was absent) is back, whatever happened in between
+            "same(at(config.user_config, 'text'), (old(at(config.user_config, 'text')) if old(has(config.user_config, 'text')) else None))",
+            'config.user_config is old(config.user_config)', UC_SAME]
+fn(M + ':parse', props=['C08'],
+   params={'abbr': 'any', 'config': 'Config'}, returns='any',
+   requires=[],
+   ensures=RESTORED, ensures_on_raise=RESTORED, raises=['PyException'],
+   modifies=['*'], allocates=True,
+   locals={'bem_lookup': 'map'})
